@@ -3,20 +3,28 @@ import AsynqModel.Lib.Tools
   C14, second layer: what happens to one helper invocation of `AsynqModel.Tools` when
     * the async key / predicate RAISES for some elements (`Ext.fails`: the class token of the exception),
     * the invocation runs under an asyncio event loop (`helper.asyncio(..)`, `Mode.asyncio`) instead of the asynq
-      scheduler, where every per-element call needs its own number of event-loop round trips (`Ext.delay`) - the
-      moment at which it finishes,
+      scheduler, where every per-element call needs its own number of event-loop round trips (`Ext.delay`): the
+      event loop sees the calls finish in THAT order (`completionOrder`), stores each outcome on its task, releases
+      the waiting helper when the last one is done (`waitAll`) and only then are the outcomes read (`readResults`),
     * the key / predicate is an EAGER async function (`Ext.eager`: `@async_proxy()`, the `.asynq` attribute that
       `asynq.mock.patch` attaches to a replacement): its body runs inside `function.asynq(elt)`, i.e. inside the
       list comprehension, not when the list is yielded,
     * the function object answers every attribute name with a truthy callable (`Ext.fnAuto`: a MagicMock; measured
-      by the harness) - tools.py only ever reads `.asynq`.
+      by the harness) - tools.py only ever reads `.asynq`,
+    * the exception class is one of CPython's GENERATOR-PROTOCOL classes (`clsKind`): StopIteration (and subclasses;
+      token 7) raised inside a generator / coroutine comes out as RuntimeError (PEP 479; token 9), GeneratorExit (and
+      subclasses; token 8) raised by the function of an asynq task ENDS that task with the value None
+      (async_task.py `_continue`: `except GeneratorExit: .. self._queue_exit(None)`), while the asyncio engine lets
+      it through.  These classes are OUTSIDE the statement of C14 (`Ext.ordinary`); the model says what the code
+      does with them so that the restriction has machine-checked witnesses.
 
   The collection helpers contain no `try`: an exception delivered at their single yield of per-element tasks (or
   raised while the list of tasks is being built) leaves the helper - and, for asorted / amax / amin, the
   intermediate `amap` task - unchanged.  So this layer is written ON TOP of `Tools.run` (whose log of yields says
   when there is such a yield: `C14_one_round`), it does not repeat the helpers.  What it adds line by line is the
   delivery of a yielded LIST of tasks in the two engines (`unwrapList`: async_task.py, `gather`: asynq_to_async.py
-  `_gather`) and the list comprehension with an eager function (`issueEager`).  Core Lean only.
+  `_gather`), the list comprehension with an eager function (`issueEager`) and aretry's loop seen through the
+  generator protocol (`retryLoopX`).  Core Lean only.
 -/
 namespace AsynqModel.Tools
 
@@ -34,18 +42,63 @@ structure Ext (α : Type) where
   eager : Bool              -- the function's body runs inside `function.asynq(elt)`
   fnAuto : Bool             -- measured: the function object answers any attribute name with a truthy callable
 
-/-- a per-element task that has finished: its exception class (if it raised) and WHEN it finished -/
+/-! ## exception classes with a meaning of their own in CPython's generator protocol -/
+
+inductive ClsKind where
+  | ordinary         -- every other class, derived from Exception or from BaseException only
+  | stopIteration    -- StopIteration and its subclasses (NOT StopAsyncIteration)
+  | generatorExit    -- GeneratorExit and its subclasses
+  deriving Repr, DecidableEq, Inhabited
+
+/-- class tokens: 7 = a subclass of StopIteration, 8 = a subclass of GeneratorExit, everything else ordinary
+    (1-4 derive from Exception, 4 from 1; 5, 6 from BaseException only; 9 = RuntimeError) -/
+def clsKind : Nat → ClsKind
+  | 7 => .stopIteration
+  | 8 => .generatorExit
+  | _ => .ordinary
+
+def ordinaryCls (c : Nat) : Bool := clsKind c == .ordinary
+
+/-- PEP 479: a StopIteration that leaves a generator / coroutine frame is replaced by RuntimeError -/
+def runtimeErrorCls : Nat := 9
+
+/-- how a per-element task ended -/
+inductive TaskOut where
+  | val               -- the function returned
+  | err (cls : Nat)   -- the task holds an error of this class
+  | lost              -- the function raised GeneratorExit: the asynq task is COMPUTED with the value None
+  deriving Repr, DecidableEq, Inhabited
+
+/-- async_task.py `_continue` (asynq) / a coroutine wrapped in an asyncio task (asyncio): what becomes of the
+    exception the function of a per-element task raises -/
+def taskOut (m : Mode) : Option Nat → TaskOut
+  | none => .val
+  | some c =>
+    match clsKind c with
+    | .ordinary => .err c                         -- `except BaseException as error: self._accept_error(error)`
+    | .stopIteration => .err runtimeErrorCls      -- "generator raised StopIteration" / "coroutine raised StopIteration"
+    | .generatorExit =>
+      match m with
+      | .asynq => .lost                           -- `except GeneratorExit: .. else: self._queue_exit(None)`
+      | .asyncio => .err c                        -- propagates like any BaseException
+
+/-- a per-element task that has finished: how, and WHEN -/
 structure Done where
-  err : Option Nat
+  out : TaskOut
   time : Nat
   deriving Repr, DecidableEq, Inhabited
 
-def taskOf (x : Ext α) (e : α) : Done := ⟨x.fails e, x.delay e⟩
+def Done.err (d : Done) : Option Nat :=
+  match d.out with
+  | .err c => some c
+  | _ => none
+
+def taskOf (x : Ext α) (e : α) : Done := ⟨taskOut x.mode (x.fails e), x.delay e⟩
 
 /-- asynq scheduler: a task that yielded a list is continued when ALL its dependencies are computed; the value
     sent into the generator is `unwrap` of the list, element by element IN LIST ORDER, so the first element (in
     list order) that holds an error is the exception thrown into the generator (async_task.py `_continue` /
-    futures `.value()`; C02 first-error clause).  `none` = every task returned. -/
+    futures `.value()`; C02 first-error clause).  `none` = every task is computed with a value. -/
 def unwrapList : List Done → Option Nat
   | [] => none
   | d :: ds =>
@@ -53,12 +106,52 @@ def unwrapList : List Done → Option Nat
     | some c => some c
     | none => unwrapList ds
 
+/-! ### the asyncio engine: completion order, `asyncio.wait`, reading the results -/
+
+/-- the event loop's queue of finished tasks: a task goes behind every task that finished EARLIER and before every
+    task that finishes at the same time or later and was created after it (ready queue = FIFO in creation order) -/
+def insertByTime (p : Nat × Done) : List (Nat × Done) → List (Nat × Done)
+  | [] => [p]
+  | q :: qs => if p.2.time ≤ q.2.time then p :: q :: qs else q :: insertByTime p qs
+
+/-- the order in which the event loop sees the tasks `tasks[i], tasks[i+1], ..` finish: (index, outcome) pairs
+    sorted by finishing time, equal times in creation order -/
+def completionOrder : Nat → List Done → List (Nat × Done)
+  | _, [] => []
+  | i, d :: ds => insertByTime (i, d) (completionOrder (i + 1) ds)
+
+/-- `await asyncio.wait(tasks, return_when=asyncio.ALL_COMPLETED)` (asyncio `_wait`): every task gets a done
+    callback that decrements a counter; when a task finishes its outcome is stored ON the task (here: appended to
+    `store`, keyed by the task's index) and the callback runs; the waiter is released when the counter reaches 0.
+    `none` = the events ran out with the counter above 0 (the helper would wait for ever; cannot happen when every
+    task finishes, `waitAll_all`). -/
+def waitAll : (pending : Nat) → (events : List (Nat × Done)) → (store : List (Nat × Done)) → Option (List (Nat × Done))
+  | 0, _, store => some store
+  | _ + 1, [], _ => none
+  | n + 1, ev :: evs, store => waitAll n evs (store ++ [ev])
+
+/-- `[task.result() for task in tasks]`: the comprehension walks `tasks[i], tasks[i+1], ..` in LIST order;
+    `task.result()` re-raises what is stored on that task; the first one that raises ends the comprehension -/
+def readResults (store : List (Nat × Done)) : Nat → List Done → Option Nat
+  | _, [] => none
+  | i, _ :: ds =>
+    match (store.lookup i).bind (·.err) with
+    | some c => some c
+    | none => readResults store (i + 1) ds
+
 /-- asynq_to_async.py `_gather`:
-      `await asyncio.wait(tasks, return_when=asyncio.ALL_COMPLETED)`   nothing is decided before the slowest is done
-      `return [task.result() for task in tasks]`                       `result()` re-raises; the comprehension walks
-                                                                       `tasks` in LIST order, whatever `Done.time` says -/
+      `tasks = [asyncio.ensure_future(awaitable) for awaitable in awaitables]`
+      `await asyncio.wait(tasks, return_when=asyncio.ALL_COMPLETED)`   nothing is read before the slowest is done
+      `return [task.result() for task in tasks]`                       read in list order -/
 def gather (ds : List Done) : Option Nat :=
-  (ds.find? fun d => d.err.isSome).bind (·.err)
+  match waitAll ds.length (completionOrder 0 ds) [] with
+  | some store => readResults store 0 ds
+  | none => none
+
+/-- CONTRAST (not what the library does): `return await asyncio.gather(*tasks)` - the awaiting coroutine is woken by
+    the first task that FAILS, in order of time (seeded change C14-8).  Same event loop, different reader. -/
+def raceGather (ds : List Done) : Option Nat :=
+  (completionOrder 0 ds).findSome? (·.2.err)
 
 /-- the exception (class) a helper's `yield [tasks]` raises, `none` = it delivers the list of values -/
 def yieldErr : Mode → List Done → Option Nat
@@ -75,28 +168,145 @@ def issueEager (fails : α → Option Nat) : List α → Nat → Option Nat × N
     | some c => (some c, n + 1)
     | none => issueEager fails es (n + 1)
 
+/-- is the helper one that sorts / compares the keys `amap` handed back (asorted, amax, amin)? -/
+def Call.comparesKeys : Call α → Bool
+  | .asorted .. | .amaxmin .. => true
+  | _ => false
+
+/-- an exception of class `cls` raised INSIDE the helper's own generator frame (by the list comprehension with an
+    eager function): an ordinary class propagates; StopIteration becomes RuntimeError (PEP 479); GeneratorExit ends
+    the helper's asynq task with the value None - for asorted / amax / amin it is the intermediate `amap` task that
+    ends so, and `zip(None, ..)` / `keys[i]` is a TypeError -/
+def eagerRes (m : Mode) (c : Call α) (cls : Nat) : Res α :=
+  match clsKind cls with
+  | .ordinary => .raised (.user cls 0)
+  | .stopIteration => .raised (.user runtimeErrorCls 0)
+  | .generatorExit =>
+    match m with
+    | .asyncio => .raised (.user cls 0)
+    | .asynq => if c.comparesKeys then .raised .typeError else .ok .none
+
+/-- was the per-element task of `e` ended by GeneratorExit (value None)? -/
+def lostAt (x : Ext α) (e : α) : Bool := (taskOf x e).out == .lost
+
+/-- the result of a helper whose yield delivered the list of values with None where a task was `lost`:
+    amap hands the list back; a predicate result None is falsy; a key None cannot be compared with anything
+    (TypeError as soon as there are two elements) -/
+def lostRes (env : Env α) (x : Ext α) (c : Call α) : Res α :=
+  match c with
+  | .amap s => .ok (.optVals (s.items.map fun e => if lostAt x e then none else some (env.key e)))
+  | .afilter .. | .afilterfalse .. | .asift .. =>
+    (run { env with pred := fun e => env.pred e && !lostAt x e } c).res
+  | _ => if 2 ≤ c.items.length then .raised .typeError else (run env c).res
+
+/-! ### aretry through the generator protocol -/
+
+/-- what aretry's generator experiences of one attempt -/
+inductive Seen where
+  | ret (v : Int)
+  | err (cls : Nat)      -- an exception that `except exception_cls` gets to look at
+  | fatal (cls : Nat)    -- an exception nothing in aretry can catch
+  | lost                 -- the attempt's task (or aretry's own task) ended with the value None
+  deriving Repr, DecidableEq, Inhabited
+
+/-- a LAZY body (`@asynq()`; under asyncio also `@async_proxy()`, whose call becomes a coroutine of its own) raises
+    inside its own task: StopIteration comes out as RuntimeError, GeneratorExit ends the task with None (asynq) or goes
+    through the event loop as a BaseException that is not retried (asyncio).  An EAGER body (`@async_proxy()` under the
+    asynq scheduler, a hand-written `.asynq`) raises inside aretry's `try`, in aretry's own frame: a listed class is
+    caught like any other; an unlisted one leaves aretry's frame (`leaves`). -/
+def seen (m : Mode) (kind : BodyKind) (listed : List Nat) : Attempt → Seen
+  | .ret v => .ret v
+  | .raise c =>
+    match clsKind c with
+    | .ordinary => .err c
+    | .stopIteration =>
+      match kind with
+      | .lazy => .err runtimeErrorCls
+      | .eager => if isListed listed c then .err c else .fatal runtimeErrorCls
+    | .generatorExit =>
+      if kind = .eager ∧ isListed listed c = true then .err c
+      else match m with
+        | .asynq => .lost
+        | .asyncio => .fatal c
+
+/-- an exception of class `cls` (instance of attempt `i`) LEAVES aretry's own frame - the bare `raise` after the last
+    attempt, or a class that is not listed: an ordinary class propagates; StopIteration becomes RuntimeError (PEP 479);
+    GeneratorExit ends aretry's asynq task with the value None -/
+def leaves (m : Mode) (cls i : Nat) : Res α :=
+  match clsKind cls with
+  | .ordinary => .raised (.user cls i)
+  | .stopIteration => .raised (.user runtimeErrorCls i)
+  | .generatorExit =>
+    match m with
+    | .asynq => .ok .none
+    | .asyncio => .raised (.user cls i)
+
+/-- `retryLoop` (Lib/Tools.lean, tools.py:286-313) with the attempts seen through `seen` -/
+def retryLoopX (m : Mode) (listed : List Nat) (script : Nat → Attempt) (maxTries : Nat) (blocking : Bool)
+    (kind : BodyKind) : (todo i : Nat) → Run α
+  | 0, _ => ⟨.ok .none, [], 0⟩
+  | todo + 1, i =>
+    let blk := attemptBlocks kind blocking (script i)
+    match seen m kind listed (script i) with
+    | .ret v => ⟨.ok (.val v), [[blk]], 0⟩
+    | .lost => ⟨.ok .none, [[blk]], 0⟩
+    | .fatal cls => ⟨.raised (.user cls i), [[blk]], 0⟩
+    | .err cls =>
+      if isListed listed cls then
+        if i + 1 == maxTries then ⟨leaves m cls i, [[blk]], 0⟩                   -- `raise`
+        else
+          let r := retryLoopX m listed script maxTries blocking kind todo (i + 1)
+          ⟨r.res, [blk] :: r.rounds, r.sleeps + 1⟩
+      else ⟨leaves m cls i, [[blk]], 0⟩
+
+def aretryX (m : Mode) (maxTries : Nat) (listed : List Nat) (script : List Attempt) (blocking : Bool)
+    (kind : BodyKind) : Run α :=
+  if maxTries = 0 then ⟨.raised .assertionError, [], 0⟩
+  else retryLoopX m listed (scriptAt script) maxTries blocking kind maxTries 0
+
+/-- `Tools.run` with aretry seen through the generator protocol -/
+def runX (env : Env α) (m : Mode) : Call α → Run α
+  | .aretry mt l sc b k => aretryX m mt l sc b k
+  | c => run env c
+
 /-- the observation of one invocation in this layer -/
 def observeX (env : Env α) (x : Ext α) (c : Call α) : Obs α :=
-  let o := observe (run env c)
+  let o := observe (runX env x.mode c)
   -- asyncio mode: no asynq batch can take part (`resolve_awaitables` refuses batch items), nothing is flushed
   let o := if x.mode = .asyncio then { o with flushes := [] } else o
   -- no per-element call is made (no function, malformed call, non-iterable input, aretry): nothing else to say
   if !c.perElement then o
   else if x.eager then
     match issueEager x.fails c.items 0 with
-    | (some cls, n) => { res := .raised (.user cls 0), flushes := [], runs := n, sleeps := 0 }
+    | (some cls, n) => { res := eagerRes x.mode c cls, flushes := [], runs := n, sleeps := 0 }
     | (none, _) => o
   else
     -- a lazy function: every task is built and yielded; all of them run; the yield raises or delivers
     match yieldErr x.mode (c.items.map (taskOf x)) with
     | some cls => { o with res := .raised (.user cls 0) }
-    | none => o
+    | none => if c.items.any (lostAt x) then { o with res := lostRes env x c } else o
 
 /-! ## the property, with a key / predicate that may raise -/
 
 /-- what `map(f, xs)` / `filter` / `sorted(key=f)` / `max(key=f)` / `min(key=f)` / the partition raise: they call `f`
     element by element in input order; the first exception ends them -/
 def firstBad (fails : α → Option Nat) (xs : List α) : Option Nat := xs.findSome? fails
+
+/-- THE CLASS DOMAIN OF THE STATEMENT: the exception that decides (the first bad element's; every class the
+    retried body raises within the first `max_tries` attempts) is not one of the generator-protocol classes.
+    Needed: `C14_stopIteration_outside_statement`, `C14_generatorExit_outside_statement`,
+    `C14_aretry_special_outside_statement`. -/
+def Ext.ordinary (x : Ext α) (c : Call α) : Bool :=
+  match c with
+  | .aretry mt _ sc _ _ =>
+    (List.range mt).all fun i =>
+      match scriptAt sc i with
+      | .raise cls => ordinaryCls cls
+      | .ret _ => true
+  | _ =>
+    match firstBad x.fails c.items with
+    | some cls => ordinaryCls cls
+    | none => true
 
 /-- the observation the property demands (cf. `expected`).  With a failing key the statement speaks about the TYPE
     of the exception only; the fields `runs` / `flushes` of that case describe the code as it is (every lazy call
@@ -131,13 +341,5 @@ def specX [DecidableEq α] (env : Env α) (x : Ext α) (c : Call α) (o : Obs α
 
 /-- the plain case: asynq mode, a lazy function that never raises -/
 def Ext.plain : Ext α := { fails := fun _ => none, delay := fun _ => 0, mode := .asynq, eager := false, fnAuto := false }
-
-/-- what a "gather" that reports the failure that happens first IN TIME would raise (seeded change C14-8;
-    ties in time broken by list order) - used by the non-vacuity examples only -/
-def firstInTime (ds : List Done) : Option Nat :=
-  let bad := ds.filter fun d => d.err.isSome
-  match bad with
-  | [] => none
-  | d :: rest => (rest.foldl (fun best e => if e.time < best.time then e else best) d).err
 
 end AsynqModel.Tools
